@@ -1,4 +1,7 @@
 import NutilsVerif.Model.C15
+/-!
+# C15 — the vectorised validation of `assemble_csr` accepts exactly the unambiguous triples
+-/
 namespace NutilsVerif.C15
 
 theorem monotone_iff_pairwise (l : List Int) : monotone l = true ↔ l.Pairwise (· ≤ ·) := by
@@ -155,5 +158,83 @@ theorem interior_iff_not_listed (P : Nat → Prop) : ∀ (t : List Int) (a L : I
         refine H k (by omega) hkL ?_
         simp only [List.mem_cons, not_or] at hnot ⊢
         exact ⟨by omega, hnot.1, hnot.2⟩
+
+
+theorem orderFlags_all (rp ci : List Int) :
+    (orderFlags rp ci).all id = true ↔
+      ∀ k : Nat, k ≤ ci.length → (k:Int) ∈ rp ∨ (1 ≤ k ∧ k < ci.length ∧ ci.getD (k-1) 0 < ci.getD k 0) := by
+  unfold orderFlags
+  simp only [List.all_map, List.all_eq_true, List.mem_range, Function.comp, id, Bool.or_eq_true,
+    List.contains_iff_mem, Bool.and_eq_true, decide_eq_true_eq]
+  constructor
+  · intro H k hk
+    rcases H k (by omega) with h | h
+    · exact Or.inl h
+    · exact Or.inr ⟨h.1.1, h.1.2, h.2⟩
+  · intro H k hk
+    rcases H k (by omega) with h | h
+    · exact Or.inl h
+    · exact Or.inr ⟨⟨h.1, h.2.1⟩, h.2.2⟩
+
+theorem rowptrOK_iff (rp : List Int) (n : Nat) :
+    rowptrOK rp n = true ↔ ∃ t, rp = 0 :: t ∧ monotone rp = true ∧ rp.getLast? = some (n:Int) := by
+  cases rp with
+  | nil => simp [rowptrOK]
+  | cons a t =>
+    simp only [rowptrOK, Bool.and_eq_true, beq_iff_eq, List.cons.injEq]
+    constructor
+    · rintro ⟨⟨rfl, h2⟩, h3⟩
+      exact ⟨t, ⟨rfl, rfl⟩, h2, h3⟩
+    · rintro ⟨t', ⟨rfl, rfl⟩, h2, h3⟩
+      exact ⟨⟨rfl, h2⟩, h3⟩
+
+/-- Under the row-pointer and length checks, the vectorised ordering test equals the per-row specification. -/
+theorem order_iff (rp ci : List Int) (n : Nat) (hrp : rowptrOK rp n = true) (hlen : ci.length = n) :
+    (orderFlags rp ci).all id = (rowSlices rp ci).all strictInc := by
+  obtain ⟨t, rfl, hm, hl⟩ := (rowptrOK_iff rp n).1 hrp
+  rw [Bool.eq_iff_iff, orderFlags_all]
+  have hb := pairs_bounds t 0 n hm hl
+  have hR : (rowSlices (0 :: t) ci).all strictInc = true ↔
+      ∀ p ∈ List.zip (0 :: t) t, ∀ k : Nat, p.1 < (k:Int) → (k:Int) < p.2 → ci.getD (k-1) 0 < ci.getD k 0 := by
+    simp only [rowSlices, slicesBy, List.all_map, List.all_eq_true, Function.comp, List.tail_cons]
+    constructor
+    · intro H p hp
+      have hpb := hb p hp
+      have := (strictInc_slice ci p.1.toNat (p.2 - p.1).toNat (by omega)).1 (H p hp)
+      intro k h1 h2
+      exact this k (by omega) (by omega)
+    · intro H p hp
+      have hpb := hb p hp
+      refine (strictInc_slice ci p.1.toNat (p.2 - p.1).toNat (by omega)).2 ?_
+      intro k h1 h2
+      exact H p hp k (by omega) (by omega)
+  rw [hR, interior_iff_not_listed _ t 0 n hm hl]
+  have h0 : (0:Int) ∈ (0 :: t) := by simp
+  have hn : (n:Int) ∈ (0 :: t) := List.mem_of_getLast? hl
+  constructor
+  · intro H k h1 h2 hnot
+    rcases H k (by omega) with h | h
+    · exact absurd h hnot
+    · exact h.2.2
+  · intro H k hk
+    by_cases hmem : (k:Int) ∈ (0 :: t)
+    · exact Or.inl hmem
+    · refine Or.inr ?_
+      have hk0 : k ≠ 0 := by rintro rfl; exact hmem h0
+      have hkn : k ≠ n := by rintro rfl; exact hmem hn
+      exact ⟨by omega, by omega, H k (by omega) (by omega) hmem⟩
+
+/-- **Theorem 1.** The vectorised validation of `assemble_csr` accepts exactly the unambiguous triples. -/
+theorem accept_iff_valid' (m : CSR) : codeAccept m = validB m := by
+  unfold codeAccept validate validB
+  by_cases h1 : rowptrOK m.rowptr m.values.length = true
+  · by_cases h2 : (m.colidx.length == m.values.length) = true
+    · by_cases h3 : colRangeOK m.colidx m.ncols = true
+      · have := order_iff m.rowptr m.colidx m.values.length h1 (by simpa using h2)
+        rw [← this]
+        cases h4 : (orderFlags m.rowptr m.colidx).all id <;> simp [h1, h2, h3, Except.isOk, Except.toBool]
+      · simp [h1, h2, h3, Except.isOk, Except.toBool]
+    · simp [h1, h2, Except.isOk, Except.toBool]
+  · simp [h1, Except.isOk, Except.toBool]
 
 end NutilsVerif.C15
